@@ -15,8 +15,8 @@ use serde::de::DeserializeOwned;
 use serde::Serialize;
 use serde_json::{json, Value};
 
-use crate::fw::{Clause, Extra, RunCfg};
-use crate::gen::{Rng, Tier};
+use cgv_core::fw::{Clause, Extra, RunCfg};
+use cgv_core::gen::{Rng, Tier};
 
 pub struct Rec {
     pub checks: u64,
@@ -298,7 +298,7 @@ pub fn native(cfg: &RunCfg, extra: &mut Extra) {
     let mut rec = Rec { checks: 0, fail: None, types: Default::default(), values: Default::default() };
     for i in 0..rounds {
         let mut rng = Rng::for_case(cfg.seed, "c20_native", i);
-        let r = crate::fw::catch(|| {
+        let r = cgv_core::fw::catch(|| {
             plain_types::<f64>(&mut rec, &mut rng, false);
             plain_types::<f32>(&mut rec, &mut rng, false);
             plain_types::<i32>(&mut rec, &mut rng, false);
